@@ -447,6 +447,11 @@ int _dbus_poll (DBusPollFD *fds,
 DBUS_PRIVATE_EXPORT
 void _dbus_sleep_milliseconds (int milliseconds);
 
+#ifdef DBUS_VERIF
+DBUS_PRIVATE_EXPORT
+extern void (*_dbus_verif_clock_hook) (int which, long *tv_sec, long *tv_usec);
+#endif
+
 DBUS_PRIVATE_EXPORT
 void _dbus_get_monotonic_time (long *tv_sec,
                                long *tv_usec);
